@@ -131,6 +131,9 @@ func c16History(c *vc.Ctx, idx int) {
 		return
 	}
 	var cands []*candidate
+	// model of 'the proposer has accepted its role': genesis value, true after any successful relayer message of the
+	// proposer, false again whenever an election seats another proposer (by rotation or because the old one was removed)
+	modelAccepted, modelKnown := false, false
 	pools := func() [][]*world.Member {
 		p := [][]*world.Member{w.Members}
 		var cm []*world.Member
@@ -154,6 +157,12 @@ func c16History(c *vc.Ctx, idx int) {
 			return
 		}
 		rel := pre.Relayer.Relayer
+		if !modelKnown {
+			modelAccepted, modelKnown = rel.ProposerAccepted, true
+		}
+		if rel.ProposerAccepted != modelAccepted {
+			viol("proposer-accepted flag differs from what happened", fmt.Sprintf("state %v, history says %v (proposer %s, epoch %d)", rel.ProposerAccepted, modelAccepted, rel.Proposer, rel.Epoch))
+		}
 		// ---- block time around the election edges ----
 		dt := 3 * time.Second
 		elapsed := ch.Now.Sub(rel.LastElected)
@@ -437,7 +446,7 @@ func c16History(c *vc.Ctx, idx int) {
 		// ---- election timing ----
 		c.Eval(1)
 		d := blockTime.Sub(rel.LastElected)
-		acceptedEnd := rel.ProposerAccepted || anyOK
+		acceptedEnd := modelAccepted || anyOK
 		want := d >= period || (!acceptedEnd && timeout != 0 && d >= timeout)
 		got := post.Relayer.Relayer.Epoch - rel.Epoch
 		switch {
@@ -446,7 +455,14 @@ func c16History(c *vc.Ctx, idx int) {
 		case !want && got != 0:
 			viol("election although none was due", fmt.Sprintf("elapsed %s period %s timeout %s accepted=%v: epoch %d -> %d", d, period, timeout, acceptedEnd, rel.Epoch, post.Relayer.Relayer.Epoch))
 		}
+		modelAccepted = acceptedEnd
 		if got == 1 {
+			// an election seats a new proposer unless the proposer is the only member; a new proposer has not accepted yet
+			if post.Relayer.Relayer.Proposer != rel.Proposer {
+				modelAccepted = false
+			} else {
+				modelAccepted = post.Relayer.Relayer.ProposerAccepted
+			}
 			elections++
 			c.Count("elections", 1)
 			if !post.Relayer.Relayer.LastElected.Equal(blockTime) {
